@@ -146,7 +146,46 @@ type model struct {
 	dropped   int // staged contracts dropped by block rollback
 	maxNest   int
 	sinceOpen int // ops since start / reopen (pruning of no-op sequences)
+	slog      []sEntry // surviving history (what the replay oracle executes), see shadow.go
+	applied   int      // prefix of slog already executed by the replay oracle
 	updated   bool // Update done, Commit pending: only commit / reopen may follow (see main.go, assumptions)
+}
+
+// sEntry is one operation of the history "with the reverted writes erased".
+type sEntry struct {
+	seq uint64
+	dim int // 0 account write, >0 storage object id, -1 never erased (barriers, discards)
+	K   string
+	A   int
+	Key int
+	T   uint64
+}
+
+func (m *model) log(e sEntry) { m.slog = append(m.slog, e) }
+
+// eraseWrites removes the not yet replayed writes of one dimension made at or after seq.
+func (m *model) eraseWrites(dim int, seq uint64) {
+	out := m.slog[:m.applied:m.applied]
+	for _, e := range m.slog[m.applied:] {
+		if e.dim == dim && e.seq >= seq && (e.K == "put" || e.K == "set" || e.K == "del") {
+			continue
+		}
+		out = append(out, e)
+	}
+	m.slog = out
+}
+
+// eraseObj removes everything not yet replayed of a storage object that ceased to exist without
+// ever having been part of a committed state since, and tells the replay to forget its handle.
+func (m *model) eraseObj(id, c int) {
+	out := m.slog[:m.applied:m.applied]
+	for _, e := range m.slog[m.applied:] {
+		if e.dim == id {
+			continue
+		}
+		out = append(out, e)
+	}
+	m.slog = append(out, sEntry{dim: -1, K: "dropfresh", A: c})
 }
 
 func newModel(level byte, na, nk int) *model {
@@ -182,6 +221,7 @@ func (m *model) clone() *model {
 	n.main = append([]snap(nil), m.main...)
 	n.dead = map[uint64]struct{}{} // not needed for enabledness
 	n.accJ = append([]uint64(nil), m.accJ...)
+	n.slog = nil // the enumerator does not need the history
 	return &n
 }
 
@@ -254,6 +294,7 @@ func (m *model) put(a int) uint64 {
 	t := m.newTag()
 	m.acc[a] = accVal{Exists: true, Nonce: t, Tag: t, SRoot: m.acc[a].SRoot}
 	m.accJ = append(m.accJ, t)
+	m.log(sEntry{seq: t, dim: 0, K: "put", A: a, T: t})
 	return t
 }
 
@@ -272,21 +313,29 @@ func (m *model) set(c, k int) uint64 {
 	t := m.newTag()
 	o.cur[k] = t
 	o.journal = append(o.journal, t)
+	m.log(sEntry{seq: t, dim: o.id, K: "set", A: c, Key: k, T: t})
 	return t
 }
 
 func (m *model) del(c, k int) {
-	delete(m.obj[c].cur, k)
+	o := m.obj[c]
+	delete(o.cur, k)
+	m.log(sEntry{seq: m.newTag(), dim: o.id, K: "del", A: c, Key: k})
 }
 
 func (m *model) stage(c int) {
-	m.obj[c].staged = true
+	o := m.obj[c]
+	if !o.staged {
+		m.log(sEntry{seq: m.newTag(), dim: o.id, K: "stage", A: c})
+	}
+	o.staged = true
 	m.nh[c]--
 }
 
 func (m *model) drop(c int) {
 	m.nh[c]--
-	if !m.obj[c].staged {
+	if o := m.obj[c]; !o.staged {
+		m.eraseObj(o.id, c)
 		m.obj[c] = nil
 		m.purgeDeadObjSnaps()
 	}
@@ -347,19 +396,23 @@ func (m *model) rbMain(i int) (forget []int) {
 	case 'A':
 		m.acc = cloneAcc(s.acc)
 		m.accJ = m.kill(m.accJ, s.seq)
+		m.eraseWrites(0, s.seq)
 	case 'C':
 		o := m.obj[s.c]
 		o.cur = s.obj.cur.clone()
 		o.journal = m.kill(o.journal, s.seq)
+		m.eraseWrites(o.id, s.seq)
 	case 'B':
 		m.acc = cloneAcc(s.acc)
 		m.accJ = m.kill(m.accJ, s.seq)
+		m.eraseWrites(0, s.seq)
 		for c, o := range m.obj {
 			if o == nil {
 				continue
 			}
 			if !o.staged {
 				// private scratch handle: discarded with the reverted transaction
+				m.eraseObj(o.id, c)
 				m.obj[c], m.nh[c] = nil, 0
 				forget = append(forget, c)
 				continue
@@ -367,10 +420,12 @@ func (m *model) rbMain(i int) (forget []int) {
 			if e, ok := s.objs[c]; ok && e.id == o.id {
 				o.cur = e.cur.clone()
 				o.journal = m.kill(o.journal, s.seq)
+				m.eraseWrites(o.id, s.seq)
 				continue
 			}
 			// staged after the snapshot: dropped
 			m.kill(o.journal, s.seq)
+			m.eraseObj(o.id, c)
 			m.obj[c], m.nh[c] = nil, 0
 			m.dropped++
 			forget = append(forget, c)
@@ -386,6 +441,7 @@ func (m *model) rbCs(c, i int) {
 	o.cs = o.cs[:i+1]
 	o.cur = s.obj.cur.clone()
 	o.journal = m.kill(o.journal, s.seq)
+	m.eraseWrites(o.id, s.seq)
 }
 
 func (m *model) clearSnaps() {
@@ -415,6 +471,7 @@ func (m *model) update() (dirty []int) {
 	}
 	m.clearSnaps()
 	m.updated = true
+	m.log(sEntry{dim: -1, K: "update"})
 	return dirty
 }
 
@@ -430,6 +487,7 @@ func (m *model) commit() {
 	}
 	m.clearSnaps()
 	m.updated = false
+	m.log(sEntry{dim: -1, K: "commit"})
 }
 
 func (m *model) reopen() {
@@ -440,4 +498,5 @@ func (m *model) reopen() {
 	m.main = nil
 	m.accJ = nil
 	m.updated = false
+	m.log(sEntry{dim: -1, K: "reopen"})
 }
